@@ -99,6 +99,15 @@ Theorem C08_after_cycle_exit_code :
   wbuild cfg0 f3_tasks (fun _ => NoFault) [] (mkWorld [] []) = mkRes XDag (mkWorld [] []) [] [].
 Proof. exact f3_after_cycle_exit. Qed.
 
+(* F32 (repaired): a dependency that does not exist makes the task fail before its function is started,
+   also when another node changed first or --force is given (it used to be executed; recording its states
+   then raised an IntegrityError inside the report hook and the task was left without a report) *)
+Theorem C08_missing_dependency_fails : forall body c E dyn desel w t f,
+  reaches_check c E dyn desel w t = true -> preds_exist E w t = false ->
+  run_task body c E dyn desel w t f = mkTres OFail w [].
+Proof. exact missing_dependency_fails. Qed.
+
+Print Assumptions C08_missing_dependency_fails.
 Print Assumptions C08_one_report_each.
 Print Assumptions C08_all_reported_unless_stopped.
 Print Assumptions C08_events_only_from_run_outcomes.
